@@ -24,19 +24,25 @@ LEVEL_TEXT = ("Decides, for every declaration at once (the analysis is of the ge
               "The rules read data flow and branch conditions, not statement shapes: helpers split off a decided function are inlined first; R1's callers and R2a's validate are read on the normalised view "
               "(Option/Result combinators = their defining match, closure bodies spliced into the caller); iterator chain / for loop, Option::map / if let / `?`, "
               "bool::then / if-else, unwrap_or / map_or / match, early return / if-else, to_string / to_owned / String::from, and six interpolations / one repetition over their chain are decided alike; "
-              "parse_semver (R7) and dropshot's from_mime_type (R5) are decided by abstract interpretation over every outcome of their stubbed leaves, whatever their control structure. "
+              "parse_semver and <VersionRange as Parse>::parse (R7) and both enum<->string pairs of R5 (the macro's as_static_str / from_str, dropshot's mime_type / from_mime_type) are decided by abstract "
+              "interpretation over every outcome of their stubbed leaves (the range parser: a concrete token cursor over every input of the range language, two literals in every weak order), whatever their "
+              "control structure: match, if-chain, find / find_map over an array, a constant table of rows indexed by discriminant or searched, a table of predicate fn pointers, one function or several, "
+              "a tuple pattern or zip().filter() for the both-literals test. R6 finds the operation by its role (the value stored into the method slot) and reads its fields off default() + assignments / "
+              "clone_from or off one struct literal with ..Default::default(); R7 reads from_until's parameter roles off the value it returns (pair built in its body or in a bool::then / map closure). "
               "Residue: the per-line string surgery of ExtractedDoc::from_attrs / normalize_comment_string (trimming, `*` prefixes, paragraph breaks), agreement of the trait stub's extractor-type list with "
               "the real handler's argument types, serde's derive mapping attribute names to EndpointMetadata fields, rustc's own type-checking of the emitted tokens, routing by method/path/versions "
               "(C01/C02/C05) and the body limit's enforcement (C11).")
 LEVEL_NOTE = ("Trusted base: rustc MIR construction, the extractor, the engine's inlining of unlisted helpers, rules/lib_c19.py (quote! template evaluator, ~1100 lines), semantics of quote's push_*/ToTokens, "
               "the evaluator's summaries of Option::map/map_or, bool::then, Iterator::map, Iterator::chain under a repetition, `?` on Option/Result, of a vector filled by one push per iteration of a `for` loop (= map+collect) "
-              "and of a String only appended to after its initialisation; rules/absint.py and lib_c07.decide_string_tables (interpreter used for parse_semver / from_mime_type; when a function leaves its fragment the rule "
-              "falls back to path facts and says so in the notes); the engine's combinator desugaring (normalised view); "
+              "and of a String only appended to after its initialisation; rules/absint.py, lib_c07.StrInterp / ITER_SUMMARIES and lib_c19.table_interp (evaluated constant tables as concrete values, indexing, bounds checks as branches, calls through fn pointers "
+              "of a table, discriminant = declaration index of a field-less enum) — the interpreter used for parse_semver, <VersionRange as Parse>::parse, as_static_str / from_str and mime_type / from_mime_type; "
+              "decide_version_range_parse's model of syn's ParseBuffer / Lookahead1 (peek, parse::<Token![..]>, parse::<VersionSpecifier> yielding Literal for a string literal and Identifier for an identifier, "
+              "is_empty, as a cursor over a token list); when a function leaves the interpretable fragment the rule falls back to path facts / match arms and says so in the notes; the engine's combinator desugaring (normalised view); "
               "format_ident!'s template is checked only for absence of literal text.")
 EXPLANATION = ("TABLE/SIBLINGS-AGREE/WHO-CALLS rules over symbolic token templates recovered from the MIR of dropshot_endpoint (each instance = one emitted call argument, builder call, struct field, "
                "caller argument or table row) plus CHAIN/SHAPE rules over ApiEndpoint's constructors, builder methods and gen_openapi in dropshot.")
 TRUSTED = ["rustc nightly MIR + const evaluation", "mirfacts extractor", "rules/lib_c19.py quote! template evaluator", "quote/proc_macro2 token push semantics",
-           "rules/absint.py interpreter + std Option/Result/Iterator::find summaries", "engine normalised view (combinator desugaring, helper inlining)",
+           "rules/absint.py interpreter + std Option/Result/Iterator::find summaries + lib_c19.table_interp (constant tables) + the token-cursor model of syn::parse::ParseBuffer", "engine normalised view (combinator desugaring, helper inlining)",
            "serde derive for EndpointMetadata/ChannelMetadata (attribute name = field name)", "rustc type-checks the emitted call against ApiEndpoint's signatures"]
 
 PRODUCER = r"^metadata::ValidatedEndpointMetadata::to_api_endpoint_fn$"
